@@ -37,6 +37,7 @@ func init() {
 		"go.parsedwrite": goParsedWrite,
 		"go.refs":        goRefs,
 		"go.copyrem":     goCopyRemaining,
+		"go.negarg":      goNegArg,
 		"go.writeint":    goWriteInt,
 		"go.minbits":     goMinBits,
 	}})
@@ -889,6 +890,56 @@ func goCopyRemaining(a []string) string {
 	return "ok"
 }
 
+// go.negarg <bits> <skip> <item with a negative int argument>: no panic; Skip and every reader return an error and leave
+// the state alone (a read must fail instead of inventing data); WriteUint writes nothing; WriteInt/WriteBigUint fail;
+// WriteBigInt fails after at most its sign bit; On/Off fail.
+func goNegArg(a []string) string {
+	bin := a[0]
+	if bin == "-" {
+		bin = ""
+	}
+	bs := boc.NewBitString(len(bin) + 70)
+	for _, c := range bin {
+		if err := bs.WriteBit(c == '1'); err != nil {
+			return "bad-op"
+		}
+	}
+	if err := bs.Skip(atoi(a[1])); err != nil {
+		return "bad-op"
+	}
+	before := showState(&bs)
+	r := applyItem(&bs, a[2])
+	kind := strings.SplitN(a[2], ":", 2)[0]
+	if r == "panic" {
+		return fail("negarg-panic", "%s", a[2])
+	}
+	switch kind {
+	case "wu":
+		if r != "ok" || showState(&bs) != before {
+			return fail("negarg-write", "%s gave %s", a[2], r)
+		}
+	case "wI":
+		if r != "err" || bs.GetWriteCursor() > len(bin)+1 {
+			return fail("negarg-write", "%s gave %s", a[2], r)
+		}
+	default:
+		if r != "err" {
+			return fail("negarg-"+strings.SplitN(r, ":", 2)[0], "%s with %d bits left gave %s", a[2], len(bin)-atoi(a[1]), r)
+		}
+		if showState(&bs) != before {
+			return fail("negarg-state", "%s changed the state", a[2])
+		}
+	}
+	// the cursor is still inside the data: a following read sees the bit at the cursor
+	if atoi(a[1]) < len(bin) {
+		v, err := bs.ReadBit()
+		if err != nil || v != (bin[atoi(a[1])] == '1') {
+			return fail("negarg-after", "%s: the next ReadBit is wrong", a[2])
+		}
+	}
+	return "ok"
+}
+
 // go.writeint <v> <n>: a successful WriteInt(v, n) appends exactly n ≥ 1 bits, and for representable v, ReadInt(n) gives v.
 func goWriteInt(a []string) string {
 	v, _ := strconv.ParseInt(a[0], 10, 64)
@@ -1059,8 +1110,57 @@ func (q *seqGen) read(n int, tok string, advance bool) {
 	}
 }
 
+func negItem(g *h.G) string {
+	n := -(1 + g.Rng.Intn(20))
+	if g.Rng.Intn(3) == 0 {
+		n = -g.Pick(1, 7, 8, 9, 16, 64, 1000)
+	}
+	switch g.Rng.Intn(13) {
+	case 0:
+		return fmt.Sprintf("sk:%d", n)
+	case 1:
+		return fmt.Sprintf("ru:%d", n)
+	case 2:
+		return fmt.Sprintf("pu:%d", n)
+	case 3:
+		return fmt.Sprintf("ri:%d", n)
+	case 4:
+		return fmt.Sprintf("ry:%d", n)
+	case 5:
+		return fmt.Sprintf("rs:%d", n)
+	case 6:
+		return fmt.Sprintf("rU:%d", n)
+	case 7:
+		return fmt.Sprintf("rI:%d", n)
+	case 8:
+		return fmt.Sprintf("wu:%d:%d", g.U64(), n)
+	case 9:
+		return fmt.Sprintf("wi:%d:%d", int64(g.U64()), n)
+	case 10:
+		return fmt.Sprintf("wU:%d:%d", g.Rng.Intn(1000), n)
+	case 11:
+		return fmt.Sprintf("on:%d", n)
+	default:
+		return fmt.Sprintf("off:%d", n)
+	}
+}
+
 func (q *seqGen) step() {
 	g := q.g
+	if g.Rng.Intn(30) == 0 {
+		it := negItem(g)
+		if strings.HasPrefix(it, "o") {
+			if q.cell {
+				return
+			}
+			q.wf = false // On/Off are not part of the specification vocabulary
+		}
+		q.items = append(q.items, it)
+		if !strings.HasPrefix(it, "wu") {
+			q.errs = true
+		}
+		return
+	}
 	free := q.cap - q.ln
 	avail := q.ln - q.cur
 	wantRead := avail > 0 && g.Rng.Intn(100) < 45
@@ -1682,6 +1782,19 @@ func genC06(g *h.G) {
 	}
 	for n := 0; n <= 7; n++ {
 		g.Emit("go.refs", fmt.Sprint(n))
+	}
+	for i := 0; i < g.Scale(600, 6000); i++ {
+		nb := g.Rng.Intn(40)
+		bin := randBits(g, nb)
+		if bin == "" {
+			bin = "-"
+		}
+		it := negItem(g)
+		if g.Rng.Intn(8) == 0 {
+			it = fmt.Sprintf("wI:%d:%d", int64(g.U64())>>uint(g.Rng.Intn(64)), -g.Rng.Intn(3))
+		}
+		g.Emit("go.negarg", bin, fmt.Sprint(g.Rng.Intn(nb+1)), it)
+		g.Count("negative_int_argument")
 	}
 	// CopyRemaining after k consumed references / skipped bits, every ref count 0..4, every k, every alignment
 	for n := 0; n <= 4; n++ {
